@@ -79,6 +79,8 @@ func TestC20Enum(t *testing.T) {
 		{Cfg: Cfg{Kind: "ip4"}, Alphabet: []string{"0", "1", "2", "5", "6", ".", "x"}, MaxLen: n},
 		{Cfg: Cfg{Kind: "ip4"}, Alphabet: []string{"0", "1", "2", "3", "4", "5", "6", "7", "8", "9", "."}, MaxLen: m},
 		{Cfg: Cfg{Kind: "ip4"}, Prefix: "1.2.", Alphabet: []string{"0", "1", "2", "3", "4", "5", "6", "7", "8", "9", ".", "x"}, MaxLen: m - 1},
+		// bytes that only differ from digits / the dot in the high bit or in bit 5 are not digits
+		{Cfg: Cfg{Kind: "ip4"}, Alphabet: []string{"1", "9", ".", "\xb1", "\xb9", "\xae", "\x0e", "\x11"}, MaxLen: m + 1},
 	} {
 		sc := sc
 		descs = append(descs, sc.Desc())
